@@ -468,6 +468,25 @@ pub fn main(args: &[String]) {
         }
     }
 
+    // ---- G3c: deep isolate nesting for P2/P3 (paragraph level, get_base_direction) -------------------
+    // d initiators, then d-1 / d / d-2 PDIs, a strong character, a PDI, a strong character of the
+    // other direction: the first strong character outside all isolates decides, at any depth
+    for (n, &d) in [1usize, 2, 60, 124, 125, 126, 127, 128, 129, 130, 200, 255, 256, 257, 300].iter().enumerate() {
+        for (m, closes) in [d.saturating_sub(1), d, d.saturating_sub(2), d + 1].iter().enumerate() {
+            for v in 0..3usize {
+                let mut items = Vec::new();
+                for j in 0..d { items.push(Item::Ch([0x2066u32, 0x2067, 0x2068][(j + v) % 3])); }
+                for _ in 0..*closes { items.push(Item::Ch(0x2069)); }
+                items.push(Item::Ch(if (n + m + v) % 2 == 0 { 0x61 } else { 0x5D0 }));
+                items.push(Item::Ch(0x2069));
+                items.push(Item::Ch(if (n + m + v) % 2 == 0 { 0x5D0 } else { 0x61 }));
+                if v == 2 { items.push(Item::Ch(0xA)); items.push(Item::Ch(0x627)); }
+                let enc = if (n + m) % 4 == 0 { 16 } else { 8 };
+                o.emit(&Case { enc, dir: 'a', items, ds: None, fam: "G3".into(), max_line_chars: usize::MAX });
+            }
+        }
+    }
+
     // ---- G4: UTF-16 arrangements ------------------------------------------------------------------
     let a16: Vec<Item> = vec![Item::Ch(0x61), Item::Ch(0x5D0), Item::Lone(0xD800), Item::Lone(0xDC00), Item::Ch(0x200B), Item::Ch(0x9), Item::Ch(0x202B), Item::Ch(0x202C), Item::Ch(0x10800), Item::Ch(0x20)];
     let max4 = if thorough { 4 } else { 3 };
